@@ -529,9 +529,13 @@ pub mod implementations {
         let callback_state = if len != 1 {
             let mut arguments = HashMap::with_capacity(len - 1); // maybe len
             for var_name in &args[1..] {
-                let var = if let Some(var) = ctx.load_variable(var_name) {
+                // lexical order, as `load`: the defining function's own variables, then the variables it
+                // captured itself, and only then the rest of the call stack
+                let var = if let Ok(var) = ctx.load_local(var_name) {
                     var
                 } else if let Ok(var) = ctx.load_callback_variable(var_name) {
+                    var
+                } else if let Some(var) = ctx.load_variable(var_name) {
                     var
                 } else {
                     bail!("{var_name} is not in scope")
